@@ -12,11 +12,16 @@ open Matrix
 variable {F : Type*} [Field F]
 variable {n k m : Type*} [Fintype n] [Fintype k] [Fintype m] [DecidableEq n] [DecidableEq k] [DecidableEq m]
 
+set_option linter.unusedSimpArgs false
+
 theorem Generated.add_eq (A : SM F n k) (B : SM F k m) : Generated.add A B = A.add B := by
   first
   | rfl
-  | (simp only [Generated.add, SM.add]; congr 1 <;> simp only [Matrix.mul_assoc])
-  | (simp only [Generated.add, SM.add]; congr 1 <;> noncomm_ring)
+  | (simp only [Generated.add, SM.add]; congr 1 <;> (simp only [Matrix.mul_assoc]; done))
+  | (simp only [Generated.add, SM.add, Matrix.mul_one, Matrix.one_mul, add_zero, zero_add];
+     congr 1 <;> (simp only [Matrix.mul_assoc]; done))
+  | (simp only [Generated.add, SM.add]; congr 1 <;> (noncomm_ring; done))
+  | (simp only [Generated.add, SM.add, Matrix.mul_one, Matrix.one_mul, add_zero, zero_add]; congr 1 <;> (noncomm_ring; done))
 
 /-- the canonical interface waves (the right-hand sides of `star_waves`) -/
 noncomputable def SM.waves (A : SM F n k) (B : SM F k m) (u : n → F) (d : m → F) : (k → F) × (k → F) :=
@@ -28,5 +33,7 @@ theorem Generated.intComplete_eq (A : SM F n k) (B : SM F k m) (u : n → F) (d 
   first
   | rfl
   | (simp only [Generated.intComplete, SM.waves, Matrix.mulVec_mulVec]; done)
-  | (simp only [Generated.intComplete, SM.waves, Matrix.mulVec_mulVec]; congr 2 <;> abel)
-  | (simp only [Generated.intComplete, SM.waves, Matrix.mulVec_add, Matrix.mulVec_mulVec]; congr 2 <;> abel)
+  | (simp only [Generated.intComplete, SM.waves, Matrix.mulVec_mulVec]; congr 2 <;> (abel; done))
+  | (simp only [Generated.intComplete, SM.waves, Matrix.mulVec_add, Matrix.mulVec_mulVec]; congr 2 <;> (abel; done))
+  | (simp only [Generated.intComplete, SM.waves, Matrix.mulVec_add, Matrix.mulVec_mulVec, Matrix.mul_one, Matrix.one_mul,
+      Matrix.mulVec_zero, add_zero, zero_add]; congr 2 <;> (abel; done))
